@@ -10,7 +10,7 @@ use vbase::gens::{self, DocParams};
 use vbase::refjson::{self, accept, show_bytes, Accept, Kind};
 use vbase::{ensure, fail};
 
-pub const RULE: &str = "cases are byte strings: (a) every sequence of <=L tokens over a 14-token alphabet (exhaustive), (b) every string of <=6 chars over {-019.eE+} placed as root, array element, object value and skipped member (exhaustive), (c) generated documents and one random mutation of each, (d) every truncation / per-position substitution / deletion of a set of generated documents. Each case is fed to every route (Value by from_slice/from_str/from_reader, Value embedded in a tuple and in a deny_unknown_fields struct, Option<Value> behind whitespace, serde_json::Value as target, String/f64/bool/() scalar targets, IgnoredAny, LazyValue, OwnedLazyValue, ignored struct fields, Deserializer::from_json over &[u8]/Bytes/FastStr, second document of a stream) and the accept/reject verdict is compared with the independent recogniser (full = utf8+grammar+scalars+finite, skip = utf8+grammar). Non-trivial = the reference rejects at offset >= 2 or accepts a text with >= 3 tokens; distinct by input bytes.";
+pub const RULE: &str = "cases are byte strings: (a) every sequence of <=L tokens over a 14-token alphabet (exhaustive), (b) every string of <=6 chars over {-019.eE+} placed as root, array element, object value and skipped member (exhaustive), (c) generated documents and one random mutation of each, (d) every truncation / per-position substitution / deletion of a set of generated documents. Each case is fed to every route (Value by from_slice/from_str/from_reader — the reader also delivering 1, 3, 7 or a growing number of bytes per call with ErrorKind::Interrupted in between —, Value embedded in a tuple and in a deny_unknown_fields struct, Option<Value> behind whitespace, serde_json::Value as target, String/f64/bool/() scalar targets, IgnoredAny, LazyValue, OwnedLazyValue, ignored struct fields, Deserializer::from_json over &[u8]/Bytes/FastStr, second document of a stream) and the accept/reject verdict is compared with the independent recogniser (full = utf8+grammar+scalars+finite, skip = utf8+grammar). Non-trivial = the reference rejects at offset >= 2 or accepts a text with >= 3 tokens; distinct by input bytes.";
 pub const ASSUMPTIONS: &[&str] = &[
     "refjson recogniser is correct (self-tested against serde_json on every run)",
     "nesting depth of generated inputs stays far below any implementation limit (deep nesting is C01's domain)",
@@ -38,6 +38,34 @@ struct OnlyA {
 enum Tier {
     Full,
     Skip,
+}
+
+/// An `io::Read` over a byte string that hands out at most `step` bytes per call (`step` 0: 1, 2, 3, …
+/// bytes) and, if asked, reports `ErrorKind::Interrupted` before every second piece.
+struct Pieces<'a> {
+    data: &'a [u8],
+    pos: usize,
+    step: usize,
+    calls: usize,
+    interrupt: bool,
+}
+impl<'a> Pieces<'a> {
+    fn new(data: &'a [u8], step: usize, interrupt: bool) -> Self {
+        Pieces { data, pos: 0, step, calls: 0, interrupt }
+    }
+}
+impl std::io::Read for Pieces<'_> {
+    fn read(&mut self, buf: &mut [u8]) -> std::io::Result<usize> {
+        self.calls += 1;
+        if self.interrupt && self.calls % 2 == 0 {
+            return Err(std::io::Error::from(std::io::ErrorKind::Interrupted));
+        }
+        let want = if self.step == 0 { self.calls } else { self.step };
+        let n = want.min(buf.len()).min(self.data.len() - self.pos);
+        buf[..n].copy_from_slice(&self.data[self.pos..self.pos + n]);
+        self.pos += n;
+        Ok(n)
+    }
 }
 
 fn wrap(pre: &[u8], b: &[u8], post: &[u8]) -> Vec<u8> {
@@ -121,6 +149,13 @@ pub fn oracle(b: &[u8], obs: &mut Obs) -> Result<(), Fail> {
         judge("from_str::<Value>", Tier::Full, sonic_rs::from_str::<Value>(s).is_ok(), a.full(), b, &a)?;
     }
     judge("from_reader::<Value>", Tier::Full, sonic_rs::from_reader::<_, Value>(b).is_ok(), a.full(), b, &a)?;
+    // readers that deliver the text in small pieces (1 byte, 7 bytes, pieces of growing size, with
+    // interruptions in between): the verdict is a function of the bytes, not of how they arrive
+    judge("from_reader::<Value>(1-byte reads)", Tier::Full, sonic_rs::from_reader::<_, Value>(Pieces::new(b, 1, false)).is_ok(), a.full(), b, &a)?;
+    judge("from_reader::<Value>(7-byte reads, interrupted)", Tier::Full, sonic_rs::from_reader::<_, Value>(Pieces::new(b, 7, true)).is_ok(), a.full(), b, &a)?;
+    judge("from_reader::<serde_json::Value>(growing reads)", Tier::Full, sonic_rs::from_reader::<_, serde_json::Value>(Pieces::new(b, 0, false)).is_ok(), a.full(), b, &a)?;
+    judge("from_reader::<OwnedLazyValue>(3-byte reads)", Tier::Skip, sonic_rs::from_reader::<_, OwnedLazyValue>(Pieces::new(b, 3, true)).is_ok(), a.skip(), b, &a)?;
+    judge("from_reader::<IgnoredAny>(1-byte reads)", Tier::Skip, sonic_rs::from_reader::<_, IgnoredAny>(Pieces::new(b, 1, true)).is_ok(), a.skip(), b, &a)?;
     judge("from_slice::<serde_json::Value>", Tier::Full, sonic_rs::from_slice::<serde_json::Value>(b).is_ok(), a.full(), b, &a)?;
     {
         let w = wrap(b"[", b, b"]");
